@@ -29,6 +29,7 @@ type Failure struct {
 	Shape    string `json:"shape"`
 	Depth    int    `json:"depth"`
 	Source   string `json:"source,omitempty"`
+	Prelude  string `json:"prelude,omitempty"`
 	Impl     string `json:"implementation"`
 	Expected string `json:"expected"`
 	Note     string `json:"note,omitempty"`
@@ -329,6 +330,26 @@ func main() {
 		h.shape(Shape{[]string{"let", "and"}, "def", "val"}, []int{10}, []int{1000000}, 0, false)
 	}
 
+	// 2b. tail positions reached through user macros; histories in which the name was defined before
+	mdeep := []int{1000}
+	hshapes := []Shape{{nil, "none", "val"}, {[]string{"let"}, "def", "val"}, {[]string{"cond1", "and"}, "none", "val"}}
+	hdeep := []int{1000}
+	if thorough {
+		mdeep = []int{1000, 100000}
+		hshapes = append(hshapes, Shape{[]string{"scope", "letseq", "or"}, "for", "val"}, Shape{[]string{"begin"}, "varargs", "val"})
+		hdeep = []int{1000, 100000}
+	}
+	h.macros(mdeep)
+	h.histories(hshapes, hdeep)
+	if !thorough && len(h.failures) == 0 {
+		// one very deep run of each family in the quick tier
+		m := MacroShapes[rng.Intn(len(MacroShapes))]
+		save := MacroShapes
+		MacroShapes = []MacroShape{m}
+		h.macros([]int{100000})
+		MacroShapes = save
+	}
+
 	// 3. templates outside the modelled core / non-tail contexts
 	h.templates([]int{0, 1, 2, 3, 4, 10})
 
@@ -379,6 +400,10 @@ func replay(h *Harness, path string) {
 	if src == "" {
 		sh, _ := ParseShape(f.Failure.Shape)
 		src = sh.Program(f.Failure.Depth).Source(r.Style{})
+	}
+	if f.Failure.Prelude != "" {
+		res := lib.Eval(h.run.Env, f.Failure.Prelude, 100000)
+		fmt.Printf("earlier evaluation: %s => %s\n", f.Failure.Prelude, res.Show())
 	}
 	obs, m := h.measure(src, budgetFor(f.Failure.Depth))
 	fmt.Printf("source: %s\nobservable: %s\nhigh-water marks (data,scope,addr,loop): %s\nrecorded: impl=%s expected=%s\n", src, obs, m, f.Failure.Impl, f.Failure.Expected)
